@@ -175,7 +175,7 @@ def params(prog, run):
     mpar = "method" if "method" in est_pos else (est_pos[4] if len(est_pos) > 4 else None)
     est_full = est
     if mpar is not None:
-        est = astq.PrunedFn(est_full, {mpar: "per"})
+        est = astq.PrunedFn(est_full, {mpar: "per"}, subst=True)
     csds = [c for c, nm in astq.calls_resolved(prog, est, lambda n: n == "scipy.signal.csd")]
     per = [c for c in csds if astq.kwarg(c, "fs") is not None]
     if not per and csds and not any(k.arg is None for c in csds for k in c.keywords):
